@@ -89,6 +89,9 @@ func driveC14(args []string) error {
 				}))
 		}
 	}
+	// graphics that consist of metadata only (no instruction at all): Reset is still delivered, with the palette the
+	// options produce
+	graphics = append(graphics, build(false, func(e *encode.Encoder) {}), build(true, func(e *encode.Encoder) {}))
 	// colours of several models; the spec is told the standard library's conversion
 	type colCase struct {
 		name string
